@@ -21,6 +21,10 @@ type storage struct {
 }
 
 func newStorage(n int) *storage {
+	if n < 0 {
+		// A reservoir cannot hold a negative number of exemplars: hold none.
+		n = 0
+	}
 	return &storage{store: make([]measurement, n)}
 }
 
